@@ -19,7 +19,7 @@ fn ascii(rng: &mut Rng, n: usize) -> Vec<u8> {
 /// The ASCII string literals (1..=200 bytes, no escapes other than `\\`, `\"`) of the given files of the
 /// Physis tree under test (`VERIF_REPO`), deduplicated, at most 4000.  A search heuristic only: which
 /// strings are hashed is a matter of the generator, what their hashes must be is the specification's.
-fn source_literals(files: &[&str]) -> Vec<Vec<u8>> {
+pub(crate) fn source_literals(files: &[&str]) -> Vec<Vec<u8>> {
     let root = std::env::var("VERIF_REPO").unwrap_or_else(|_| "/repo".to_string());
     let mut seen = std::collections::BTreeSet::new();
     for f in files {
